@@ -319,3 +319,9 @@ Definition shift_op3 (k : nat) (o : op3) : op3 :=
   end.
 Definition shift_op4 (k : nat) (o : op4) : op4 :=
   match o with O3 o' => O3 (shift_op3 k o') | ODisplay => ODisplay end.
+
+(* every constructor over raw octets (from_octets, from_slice, try_from_octets,
+   for &[u8] / Vec<u8> / Bytes) accepts exactly what Message::check_slice
+   accepts: at least header_len octets *)
+Definition c01_ctor (m : bytes) : list bool :=
+  repeat (from_octets_ok m) (N.to_nat (checking_constructors + 4)).
